@@ -86,3 +86,16 @@ m("c19-parent-before-children", "C19", "daemon/config/mapping.py",
   "                structure = {\n                    key: self.translate_hierarchy(value, where=\"%s.%s\" % (where, key))\n                    for key, value in structure.items()\n                }\n                if \"__type__\" in structure:\n                    return self.construct(structure, **construct_kwargs)\n                return structure",
   "                if \"__type__\" in structure and not any(isinstance(v, (dict, list)) for v in structure.values()):\n                    return self.construct(structure, **construct_kwargs)\n                structure = {\n                    key: self.translate_hierarchy(value, where=\"%s.%s\" % (where, key))\n                    for key, value in reversed(list(structure.items()))\n                }\n                if \"__type__\" in structure:\n                    return self.construct(structure, **construct_kwargs)\n                return structure")
 m("c19-attr-error-no-where", "C19", "daemon/config/mapping.py", "                        raise ConfigurationError(\n                            what=\"no such object %r\" % absolute_name\n                        ) from err", "                        raise ConfigurationError(\n                            what=\"no such object %r\" % absolute_name, where=absolute_name\n                        ) from err")
+# ---- C14
+m("c14-direction-inverted", "C14", "daemon/core/config.py", "        plugin.section: set(plugin.after) for plugin in plugins.values()", "        plugin.section: set(plugin.before) for plugin in plugins.values()")
+m("c14-before-ignored", "C14", "daemon/core/config.py", "            dependencies.setdefault(before, set()).add(plugin.section)", "            dependencies.setdefault(before, set())")
+m("c14-unknown-check-late", "C14", "daemon/config/mapping.py",
+  "    if unmatched:\n        raise ConfigurationError(\n            where=\"root\", what=\"unknown config sections %s\" % \", \".join(unmatched)\n        )\n    content = {}",
+  "    content = {}")
+m("c14-required-ignored", "C14", "daemon/config/mapping.py", "            if plugin.required:", "            if plugin.required and False:")
+m("c14-none-kept", "C14", "daemon/config/mapping.py", "            if plugin_content is not None:", "            if True:")
+m("c14-falsy-dropped", "C14", "daemon/config/mapping.py", "            if plugin_content is not None:", "            if plugin_content:")
+m("c14-copy-content", "C14", "daemon/config/mapping.py", "            plugin_content = plugin.digest(section_data)", "            plugin_content = plugin.digest(section_data if not isinstance(section_data, list) else list(section_data))")
+m("c14-keyed-by-section", "C14", "daemon/config/mapping.py", "                content[plugin] = plugin_content", "                content[plugin.section] = plugin_content")
+m("c14-keyerror-again", "C14", "daemon/core/config.py", "            dependencies.setdefault(before, set()).add(plugin.section)", "            dependencies[before].add(plugin.section)")
+m("c14-logging-unknown", "C14", "daemon/config/mapping.py", '        logging_mapping = config_data.pop("logging")', '        logging_mapping = config_data["logging"]')
